@@ -34,6 +34,9 @@ type lockSpec struct {
 	setup map[string]string
 	// accessors that are safe without the lock, with reason
 	exemptAccess map[string]string
+	// mutCallee: a method of another package that stores into its receiver;
+	// calling it on a guarded field is a write of that field
+	mutCallee func(*types.Func) (string, bool)
 }
 
 const (
@@ -220,6 +223,7 @@ func (la *lockAnalysis) summarize(fn *types.Func) *lockSummary {
 		sum.findings = append(sum.findings, lockFinding{fn: fn, pos: pos, msg: msg, kind: kind})
 	}
 	setup := la.spec.setup[core.FuncName(fd)] != ""
+	writeWhy := ""
 	access := func(base ast.Expr, field string, write bool, pos token.Pos, s flow.State) {
 		if setup {
 			return
@@ -230,10 +234,13 @@ func (la *lockAnalysis) summarize(fn *types.Func) *lockSummary {
 					sum.needs, sum.needsPos, sum.needsWhat = true, pos, field
 				}
 				if write {
+					if !sum.needsW && writeWhy != "" {
+						sum.needsWhat = field + writeWhy
+					}
 					sum.needsW = true
 				}
 			} else if write && s&lkW == 0 {
-				note("write-under-rlock", pos, "field "+field+" is written while only the read lock is held")
+				note("write-under-rlock", pos, "field "+field+" is written while only the read lock is held"+writeWhy)
 			}
 			return
 		}
@@ -298,7 +305,16 @@ func (la *lockAnalysis) summarize(fn *types.Func) *lockSummary {
 			}
 			// receiver of a method call / arguments: reads of guarded fields
 			if sel, ok := ast.Unparen(x.Fun).(*ast.SelectorExpr); ok {
-				visitExpr(sel.X, s, false)
+				wr := false
+				if la.spec.mutCallee != nil {
+					if m := core.CalleeOf(la.info, x); m != nil {
+						if why, ok := la.spec.mutCallee(m); ok {
+							wr, writeWhy = true, " (the call of "+core.FuncKey(m)+" on it "+why+")"
+						}
+					}
+				}
+				visitExpr(sel.X, s, wr)
+				writeWhy = ""
 			}
 			for _, a := range x.Args {
 				visitExpr(a, s, false)
